@@ -77,8 +77,21 @@ Definition cast_float (a : ytree) : option ytree :=
 Definition keys_union (recs : list row) : list Z := dedup (concat (map (map fst) recs)) [].
 Definition row_on (cols : list Z) (r : row) : row :=
   map (fun c => (c, match assoc c r with Some v => v | None => YNaN end)) cols.
+(* numpy dtype of a column built from Python values: ints together with a float or a missing value become float64
+   (visible only in foreign columns, which are written back as they are) *)
+Definition col_cells (c : Z) (rows : list row) : list ytree :=
+  map (fun r => match assoc c r with Some v => v | None => YNaN end) rows.
+Definition col_floats (c : Z) (rows : list row) : bool :=
+  let cells := col_cells c rows in
+  forallb (fun v => match v with YInt _ | YFloat _ | YNaN => true | _ => false end) cells
+  && existsb (fun v => match v with YFloat _ | YNaN => true | _ => false end) cells.
+Definition promote (cols : list Z) (rows : list row) : list row :=
+  let fl := filter (fun c => col_floats c rows) cols in
+  map (map (fun kv => match snd kv with
+                      | YInt z => if memZ (fst kv) fl then (fst kv, YFloat (inject_Z z)) else kv
+                      | _ => kv end)) rows.
 Definition fr_of_dicts (recs : list row) : frame :=
-  let cols := keys_union recs in mkFrame cols (map (row_on cols) recs).
+  let cols := keys_union recs in mkFrame cols (promote cols (map (row_on cols) recs)).
 Definition ren1 (ren : list (Z * Z)) (c : Z) : Z := match assoc c ren with Some c' => c' | None => c end.
 Definition fr_rename (ren : list (Z * Z)) (f : frame) : frame :=
   mkFrame (map (ren1 ren) (f_cols f)) (map (map (fun kv => (ren1 ren (fst kv), snd kv))) (f_rows f)).
